@@ -152,10 +152,12 @@ class HttpParser:
 
     def should_keep_alive(self):
         """Return True if the connection should be kept alive"""
+        # the header is a list of options, e.g. "TE, close"
         hconn = self._headers.get('connection', '').lower()
-        if hconn == 'close':
+        hconn_parts = [x.strip() for x in hconn.split(',')]
+        if 'close' in hconn_parts:
             return False
-        if hconn == 'keep-alive':
+        if 'keep-alive' in hconn_parts:
             return True
         return self._version == (1, 1)
 
